@@ -244,7 +244,7 @@ func TestLegendre(t *testing.T) {
 		n := i + 1
 		return legCase{N: n, A: -1, B: 1, Degs: allDegs(n, 60), Conc: (n % 3) * 2}
 	}, checkLegendre)
-	vk.Run(t, "quad-legendre", vk.Opts{Quick: 3000, Thorough: 60000, NoCrumb: true}, func(t *rapid.T) legCase {
+	vk.Run(t, "quad-legendre", vk.Opts{Quick: 3000, Thorough: 200000, NoCrumb: true}, func(t *rapid.T) legCase {
 		n := vk.Dim(t, "n", 1, 300, 30, 100, 101, 200)
 		a, b := drawInterval(t)
 		var degs []int
